@@ -1,6 +1,6 @@
 (* C18 — property theorems (statements only; proofs live in Proofs*.v). *)
 From Coq Require Import List ZArith NArith QArith Bool.
-Require Import QV.C18.Model QV.C18.Spec QV.C18.Proofs.
+Require Import QV.C18.Model QV.C18.Spec QV.C18.Proofs QV.C18.Proofs_frame_awg QV.C18.Proofs_frame_dac.
 Import ListNotations.
 
 (* Generator side of the routing invariant, for arbitrary finite histories of operations (calls that raise included)
@@ -86,3 +86,106 @@ Theorem C18_cleared_dac : forall dm h d,
   d_wins (dac_of (fst (clear_programs (run dm init_state h))) d) = [].
 Proof. exact cleared_empty_dac. Qed.
 Print Assumptions C18_cleared_dac.
+
+(* ================================================================================================================ *)
+(* Round 2: EVERY history, no guard.  `trun` runs the model and, next to it, the executable status of every program
+   name on each side (Spec.track_awg / track_dac): clean, covered (wiring of a used name changed after registration;
+   copies exactly on the recorded devices), lost (clear_programs while a recorded device was un-wired). *)
+
+Theorem C18_tracked_state : forall dm h, t_st (trun dm tinit h) = run dm init_state h.
+Proof. intros dm h. exact (t_st_run dm h tinit). Qed.
+Print Assumptions C18_tracked_state.
+
+(* for every history: the routing clauses (exact holders, channel ids / transformations at the wired outputs, exact
+   record) for every clean name; registered + copies exactly on the recorded generators for every covered name;
+   armed => held for every name that is not lost *)
+Theorem C18_framed_invariant_awg : forall dm h,
+  framed_inv_awg dm (t_awg (trun dm tinit h)) (t_st (trun dm tinit h)).
+Proof. exact framed_awg_histories. Qed.
+Print Assumptions C18_framed_invariant_awg.
+
+Theorem C18_framed_invariant_dac : forall dm h,
+  framed_inv_dac (t_dac (trun dm tinit h)) (t_st (trun dm tinit h)).
+Proof. exact framed_dac_histories. Qed.
+Print Assumptions C18_framed_invariant_dac.
+
+(* under the guard of round 1 every name stays clean on both sides: the guarded theorems above are instances *)
+Theorem C18_guard_implies_clean : forall dm h,
+  guard_C18_rewire dm init_state h = true ->
+  t_awg (trun dm tinit h) = ([], []) /\ t_dac (trun dm tinit h) = ([], []).
+Proof. intros dm h G. split; [apply guard_clean | apply guard_clean_dac]; exact G. Qed.
+Print Assumptions C18_guard_implies_clean.
+
+(* arming a clean name, after any history *)
+Theorem C18_arm_awg_any_history : forall dm h name st',
+  is_clean (t_awg (trun dm tinit h)) name = true ->
+  arm_program (t_st (trun dm tinit h)) name = (st', None) ->
+  exists r, lookup name (regs st') = Some r
+            /\ forall a, awg_arm_post (chmap st') name (r_chans r) a (awg_of st' a) = true.
+Proof. exact framed_arm_awg. Qed.
+Print Assumptions C18_arm_awg_any_history.
+
+Theorem C18_arm_dac_any_history : forall dm h name st',
+  is_clean (t_dac (trun dm tinit h)) name = true ->
+  arm_program (t_st (trun dm tinit h)) name = (st', None) ->
+  exists r, lookup name (regs st') = Some r
+            /\ forall d, dac_arm_post (mmap st') name (r_meas r) d (dac_of st' d) = true.
+Proof. exact framed_arm_dac. Qed.
+Print Assumptions C18_arm_dac_any_history.
+
+(* removing a name that is not lost (clean OR covered) removes it from every device, after any history *)
+Theorem C18_removed_awg_any_history : forall dm h name a,
+  is_lost (t_awg (trun dm tinit h)) name = false ->
+  awg_gone name (awg_of (fst (remove_program (t_st (trun dm tinit h)) name)) a) = true.
+Proof. exact framed_removed_awg. Qed.
+Print Assumptions C18_removed_awg_any_history.
+
+Theorem C18_removed_dac_any_history : forall dm h name d,
+  is_lost (t_dac (trun dm tinit h)) name = false ->
+  dac_gone name (dac_of (fst (remove_program (t_st (trun dm tinit h)) name)) d) = true.
+Proof. exact framed_removed_dac. Qed.
+Print Assumptions C18_removed_dac_any_history.
+
+(* after clear_programs, whatever a device still holds is a lost name *)
+Theorem C18_cleared_awg_any_history : forall dm h a n,
+  has_key n (a_progs (awg_of (t_st (trun dm tinit (h ++ [OClear]))) a)) = true ->
+  is_lost (t_awg (trun dm tinit (h ++ [OClear]))) n = true.
+Proof. exact framed_cleared_awg. Qed.
+Print Assumptions C18_cleared_awg_any_history.
+
+Theorem C18_cleared_dac_any_history : forall dm h d n,
+  has_key n (d_wins (dac_of (t_st (trun dm tinit (h ++ [OClear]))) d)) = true ->
+  is_lost (t_dac (trun dm tinit (h ++ [OClear]))) n = true.
+Proof. exact framed_cleared_dac. Qed.
+Print Assumptions C18_cleared_dac_any_history.
+
+(* update_parameters of a clean name hands the parameters to exactly the generators the program uses, each once *)
+Theorem C18_update_parameters : forall dm h name ptag st',
+  is_clean (t_awg (trun dm tinit h)) name = true ->
+  update_parameters (t_st (trun dm tinit h)) name ptag = (st', None) ->
+  exists r got rest, lookup name (regs st') = Some r /\ vollog st' = (name, ptag, got) :: rest
+                     /\ delivered_ok (chmap st') (r_chans r) got.
+Proof. exact framed_update_parameters. Qed.
+Print Assumptions C18_update_parameters.
+
+(* non-vacuity of the statuses: re-wiring makes the name covered, register_program(update=True) makes it clean again
+   and the device that dropped out is empty; rm_channel + clear_programs loses the copy (still on generator 0);
+   a second mask object for the same (device, mask name) keeps the name clean *)
+Theorem C18_restore_example :
+  is_cov (t_awg (trun restore_dims tinit restore_history)) 0%N = true
+  /\ is_clean (t_awg (trun restore_dims tinit (restore_history ++ [restore_update]))) 0%N = true
+  /\ keys (a_progs (awg_of (t_st (trun restore_dims tinit (restore_history ++ [restore_update]))) 0%N)) = []
+  /\ keys (a_progs (awg_of (t_st (trun restore_dims tinit (restore_history ++ [restore_update]))) 1%N)) = [0%N]
+  /\ is_lost (t_awg (trun restore_dims tinit (restore_history ++ [ORmChannel 0; OClear]))) 0%N = true
+  /\ keys (a_progs (awg_of (t_st (trun restore_dims tinit (restore_history ++ [ORmChannel 0; OClear]))) 0%N)) = [0%N].
+Proof. exact restore_example. Qed.
+Print Assumptions C18_restore_example.
+
+Theorem C18_restore_example_dac :
+  is_clean (t_dac (trun restore_dims tinit dac_h1)) 0%N = true
+  /\ is_cov (t_dac (trun restore_dims tinit dac_h2)) 0%N = true
+  /\ is_clean (t_dac (trun restore_dims tinit dac_h3)) 0%N = true
+  /\ keys (d_wins (dac_of (t_st (trun restore_dims tinit dac_h3)) 0%N)) = []
+  /\ keys (d_wins (dac_of (t_st (trun restore_dims tinit dac_h3)) 1%N)) = [0%N].
+Proof. exact dac_restore_example. Qed.
+Print Assumptions C18_restore_example_dac.
